@@ -136,7 +136,7 @@ def scenario(chk, rng, work, idx):
             open(os.path.join(work, pat % p), "wb").write(b"someone else's file " + (pat % p).encode())
     kinds = {}
     for p in PATHS:
-        k = rng.choice(["absent", "absent", "tdf", "tdf_hist", "nontdf", "empty"])
+        k = rng.choice(["absent", "absent", "tdf", "tdf_hist", "nontdf", "empty", "almost"])
         kinds[p] = k
         if k == "tdf":
             put(work, p, tdf_bytes(rng, work, 0))
@@ -146,6 +146,24 @@ def scenario(chk, rng, work, idx):
             put(work, p, bytes(rng.getrandbits(8) for _ in range(rng.choice((1, 15, 16, 64, 5000)))))
         elif k == "empty":
             put(work, p, b"")
+        elif k == "almost":
+            # not a TDF file, but close: the signature is all there, only not at the start (a TDF file behind a foreign
+            # prefix, the signature further into the first bytes), or the start is a truncated / one-bit-off signature
+            good = tdf_bytes(rng, work, rng.randrange(0, 2))
+            how = rng.randrange(6)
+            if how == 0:
+                data = bytes(rng.getrandbits(8) for _ in range(rng.choice((1, 4, 16, 48)))) + good
+            elif how == 1:
+                data = b"\0" * rng.choice((8, 32, 48)) + container.SIG + b"\0" * 4096
+            elif how == 2:
+                data = b"TDF file v1\r\n" + container.SIG + good[16:]
+            elif how == 3:
+                data = container.SIG[:15] + bytes([container.SIG[15] ^ 1]) + good[16:]
+            elif how == 4:
+                data = container.SIG[1:] + good[16:]
+            else:
+                data = container.SIG[:8]
+            put(work, p, data)
     calls = []
     for _ in range(rng.randrange(2, 6)):
         r = rng.random()
@@ -249,7 +267,7 @@ def scenario(chk, rng, work, idx):
 
 def run(chk):
     chk.rule = ("scenarios over 4 paths in a directory that also holds other files named like them (.tmp, .bak, ~, .swp, .lock, no suffix), each path initially absent / a fresh TDF / a TDF reached by a 1-3 call history / a non-TDF file "
-                "(1..5000 random bytes) / an empty file; 2-5 calls from {Tdf.new, copy, open+enter, a later mutation of any TDF "
+                "(1..5000 random bytes) / an empty file / an almost-TDF file (signature present but not at offset 0, one bit off, truncated); 2-5 calls from {Tdf.new, copy, open+enter, a later mutation of any TDF "
                 "path}; after every call: bytes of every path before/after, exception class; oracle: the property's clauses "
                 "on the implementation alone; correspondence: Fs.v fs_new / fs_copy / fs_open on the same file-system state; "
                 "plus targets given as relative paths (bare name, ./name, sub/name, ../dir/name) with the current directory different from the source's; non-trivial = a creating/copying call or a refused open")
